@@ -56,3 +56,5 @@ def run(chk, tier):
         fn, paths, rows = E.eval_dyn_table(chk, F, 'R18.4.table', cfg)
         E.method_isolation(chk, F, 'R18.4', cfg, paths)
         A.push_table(chk, F, 'R18.4.push', cfg)
+    from xpand import rules as X
+    X.check_traits(chk, tier, chk.seed, {'C18'})
